@@ -132,6 +132,7 @@ class Adversary(Scheduling):
            'foreign' reserves machines under foreign names and proposes them
            'resched' also re-proposes tasks that are already SCHEDULED/RUNNING
            'unready' also proposes tasks whose predecessors have not finished
+           'static'  task j of the plan on machine j % n, whatever the machine is doing
     """
 
     def __init__(self, mode="random", seed=0):
@@ -165,7 +166,7 @@ class Adversary(Scheduling):
                         for p in workflow_plan.graph.predecessors(task))
             propose = False
             if st is TaskStatus.UNSCHEDULED and ready:
-                propose = self.rng.random() < 0.8
+                propose = self.mode == "static" or self.rng.random() < 0.8
             elif st is TaskStatus.UNSCHEDULED and self.mode == "unready":
                 propose = self.rng.random() < 0.15
             elif st in (TaskStatus.SCHEDULED, TaskStatus.RUNNING) and self.mode == "resched":
@@ -174,6 +175,8 @@ class Adversary(Scheduling):
                 continue
             if self.mode == "dup":
                 m = dupm
+            elif self.mode == "static":
+                m = machines[list(workflow_plan.tasks).index(task) % len(machines)]
             elif self.mode == "busy" and busy and self.rng.random() < 0.7:
                 m = self.rng.choice(busy)
             elif self.mode == "foreign" and cluster.get_idle_resources("__foreign__") \
